@@ -61,6 +61,8 @@ func NewUniv() *Univ {
 		marshals: map[string]bool{},
 	}
 	u.loadBaseSigs()
+	u.StrLit("") // the empty string is always str!0 (named str.empty in preludes)
+	u.sigs["str.empty"] = &FuncSig{Name: "str.empty", Args: nil, Ret: "Str"}
 	return u
 }
 
@@ -449,10 +451,6 @@ func (u *Univ) Decls() string {
 		b.WriteString(d)
 		b.WriteString("\n")
 	}
-	for _, p := range u.prelude {
-		b.WriteString(p)
-		b.WriteString("\n")
-	}
 	for i, lit := range u.strOrder {
 		fmt.Fprintf(&b, "(declare-const str!%d Str) ; %q\n(assert (= (s.len str!%d) %d))\n", i, trunc(lit, 40), i, len(lit))
 	}
@@ -462,6 +460,11 @@ func (u *Univ) Decls() string {
 			fmt.Fprintf(&b, " str!%d", i)
 		}
 		b.WriteString("))\n")
+	}
+	b.WriteString("(define-fun str.empty () Str str!0)\n")
+	for _, p := range u.prelude {
+		b.WriteString(p)
+		b.WriteString("\n")
 	}
 	b.WriteString(constsMarker)
 	for _, c := range u.consts {
